@@ -90,11 +90,20 @@ class EndMark(object):
         yield (self.t, "end")
 
 
+def _inc(v):
+    return v + 1
+
+
+def _dbl(v):
+    return v + v
+
+
 def make_branch(kind, t, j):
     if kind == 0:
         return Source(Gen(t))
     if kind == 1:
-        return (Sum(), Tag(t))
+        # two pre-processing steps that do not commute, then the accumulator
+        return (_inc, _dbl, Sum(), Tag(t))
     if kind == 2:
         return (Slice(j), StoreFilled(), Tag(t))
     if kind == 3:
@@ -140,7 +149,7 @@ def ref_split(kinds, j, bufsize, flow):
                 active.remove(b)
             elif k == 1:
                 for v in block:
-                    acc[b] += v
+                    acc[b] += (v + 1) + (v + 1)
             elif k == 2:
                 for v in block:
                     if nfilled[b] == j:
